@@ -667,16 +667,24 @@ func (an *An) call(c *ssa.Call, facts []ir.Fact) AV {
 		return a
 	}
 	switch name {
-	case "math.Min", "math.Max":
-		a, b := an.Eval(args[0], facts), an.Eval(args[1], facts)
-		r := AV{NaN: a.NaN || b.NaN}
-		if name == "math.Min" {
-			// min(a,b) <= every upper bound of either; >= lower bounds common to both
-			r.Hi = append(append(r.Hi, a.Hi...), b.Hi...)
-			r.Lo = join([]AV{{Lo: a.Lo}, {Lo: b.Lo}}).Lo
-		} else {
-			r.Lo = append(append(r.Lo, a.Lo...), b.Lo...)
-			r.Hi = join([]AV{{Hi: a.Hi}, {Hi: b.Hi}}).Hi
+	case "math.Min", "math.Max", "builtin:min", "builtin:max":
+		if len(args) == 0 {
+			return an.opaque(c)
+		}
+		isMin := name == "math.Min" || name == "builtin:min"
+		r := an.Eval(args[0], facts)
+		r.Exact = nil
+		for _, arg := range args[1:] {
+			a, b := r, an.Eval(arg, facts)
+			r = AV{NaN: a.NaN || b.NaN}
+			if isMin {
+				// min(a,b) <= every upper bound of either; >= lower bounds common to both
+				r.Hi = append(append(r.Hi, a.Hi...), b.Hi...)
+				r.Lo = join([]AV{{Lo: a.Lo}, {Lo: b.Lo}}).Lo
+			} else {
+				r.Lo = append(append(r.Lo, a.Lo...), b.Lo...)
+				r.Hi = join([]AV{{Hi: a.Hi}, {Hi: b.Hi}}).Hi
+			}
 		}
 		return r
 	case "math.Round", "math.Floor", "math.Ceil", "math.Trunc", "math.RoundToEven":
@@ -957,3 +965,6 @@ func sameValue(a, b ssa.Value) bool {
 	fb, okB := ir.ConstFloat(cb)
 	return okA && okB && fa == fb
 }
+
+// Parent returns the analyser of the caller this one was entered from (nil at the top).
+func (an *An) Parent() *An { return an.parent }
